@@ -5,30 +5,40 @@ import YaegiVerif.Generated.C16
 import YaegiVerif.Proofs.C16Path
 import YaegiVerif.Proofs.C16Eff
 import YaegiVerif.Proofs.C16PkgDir
+import YaegiVerif.Proofs.C16Root
 import YaegiVerif.Proofs.C16Import
 /-
   C16 — property theorems: source imports resolve to the right directory, once, without cycles.
+  State after the repairs of F16, F16-1, F16-2, F16-3, F16-4, F16-5, F16-6, F16-7, F16-9, F16-10
+  (round 3): the resolution theorems carry no excluded class any more; F16-8 and F16-11 are open.
 -/
 namespace YaegiVerif.Props.C16
 open YaegiVerif YaegiVerif.Src
 
-/-- tie: the literal words and the order of pkgDir's two attempts read from interp/src.go -/
+/-- tie: the literal words of interp/src.go and the decisions the model follows — the shape of pkgDir's
+    attempts (vendor first, then GOPATH/src/<path> at the empty root only, candidates must be directories,
+    the `noRoot` branch), previousRoot's error test, importSrc's resolution through goPkgDir from
+    mainRoot(rPath) after the rejection of vendor elements, mainRoot's relative case, the relative keys of gta -/
 theorem words_tie : Generated.C16.words = Expected.C16.words := by decide
 
-/-- tie: order of importSrc's bookkeeping statements (already-imported test, resolution, cycle test,
-    mark, recursion, registration) -/
+/-- tie: order of importSrc's bookkeeping statements (already-imported test, rejection of vendor elements,
+    resolution, cycle test, mark, recursion, registration) -/
 theorem import_order_tie : Generated.C16.importOrder = Expected.C16.importOrder := by decide
 
-/-- tie (`same_on_any_fs`): importSrc, pkgDir, previousRoot and effectivePkg reach the file system only
-    through fs.Stat / fs.ReadDir / fs.ReadFile of the configured file system, never through package os -/
+/-- tie (`same_on_any_fs`): the resolution functions reach the file system only through fs.Stat / fs.ReadDir /
+    fs.ReadFile of the configured file system, never through package os; the process is consulted in one
+    place, filepath.Abs in rootFromDir (both the package directory and GOPATH/src against the same working
+    directory) -/
 theorem same_on_any_fs :
-    Generated.C16.fsCalls = Expected.C16.fsCalls ∧ Generated.C16.osCalls = Expected.C16.osCalls := by decide
+    Generated.C16.fsCalls = Expected.C16.fsCalls ∧ Generated.C16.osCalls = Expected.C16.osCalls ∧
+    Generated.C16.wdCalls = Expected.C16.wdCalls := by decide
 
-/-- tie: gta.go still rewrites an import path "x/x" to "x" before resolving it (finding F16-7) -/
+/-- tie: gta.go does not rewrite the import path "x/x" of a source package to "x" any more (F16-7 repaired;
+    the driver applies `gtaImportPath` only when the extracted flag says so) -/
 theorem gta_tie : Generated.C16.gtaCollapse = Expected.C16.gtaCollapse := by decide
 
-/-- what that rewriting does to a doubled import path, and to no other clean path of the example -/
-theorem doubled_import_path_witness :
+/-- old fact (before 444e842): what that rewriting did to a doubled import path, and to no other clean path -/
+example :
     gtaImportPath ["x", "x"] = ["x"] ∧ gtaImportPath ["x", "y"] = ["x", "y"] ∧ gtaImportPath ["a", "x", "x"] = ["a", "x", "x"] := by
   decide
 
@@ -107,104 +117,124 @@ example : domEff ["github.com", "foo", "plugin", "vendor", "guthib.com", "traefi
       ["github.com", "foo", "plugin", "vendor", "guthib.com", "traefik", "fromage", "vendor", "guthib.com", "traefik", "vin"] := by
   decide
 
-/-- …and what the domain excludes is a real difference: the import path `y/app/sub` seen from the root
+/-- **Every use importSrc makes of effectivePkg is plain concatenation**: the root is "" or `<dir>/vendor`
+    (what goPkgDir returns) and no element of the import path before its last is `vendor` (importSrc rejects
+    such paths since the repair of F16-3). -/
+theorem effectivePkg_below_vendor (r0 P : List String) (hr0 : NormRel r0 = true) (hP : NormRel P = true) (hne : P ≠ [])
+    (hv : "vendor" ∉ P.dropLast) :
+    effectivePkg (pathOf (r0 ++ ["vendor"])) P = pathOf (r0 ++ ["vendor"] ++ P) := by
+  apply effectivePkg_spec_partial
+  have hn : NormRel (r0 ++ ["vendor"]) = true := by rw [normRel_append, hr0]; rfl
+  simp only [domEff, hn, hP, Bool.and_eq_true, Bool.not_eq_true', List.isEmpty_eq_false_iff, List.all_eq_true, true_and]
+  refine ⟨hne, ?_⟩
+  intro e he
+  have hne' : e ≠ "vendor" := fun h0 => hv (h0 ▸ he)
+  simp [rootEndsWith, List.getLast?_append, Ne.symm hne']
+
+/-- …and what the domain excludes is a real difference of the function (no caller reaches it any more): the import path `y/app/sub` seen from the root
     `x/app` becomes `x/app/sub` (another directory than GOPATH/src/x/app/y/app/sub, and than GOPATH/src/y/app/sub). -/
 theorem effectivePkg_overlap_witness :
     domEff ["x", "app"] ["y", "app", "sub"] = false ∧
     effectivePkg ["x", "app"] ["y", "app", "sub"] = ["x", "app", "sub"] := by decide
 
 
-/-! ## pkgDir
+/-! ## pkgDir and goPkgDir
 
   `goPath` is GOPATH, `r` the elements of the importing directory below GOPATH/src (what importSrc
-  passes as `rPath`), `P` the elements of the import path. -/
+  passes on as the root), `P` the elements of the import path. -/
 
-/-- Domain of the resolution theorem (decidable).
-    * GOPATH is a clean path (relative for an `io/fs` file system), `r` and `P` are clean, `P` non-empty;
-    * no candidate directory is a regular file, no proper ancestor of `r` holds a regular file named `vendor`;
-    * a directory `<level>/vendor/<P>` has its parent `<level>/vendor` in the tree and holds Go files
-      (outside: class `vendor-dir-without-go-files`);
-    * for no level `k ≥ 1` does `GOPATH/src/effectivePkg(r[:k], P)` exist (outside: class
-      `found-under-root`, see `nested_under_root_witness`). -/
-def domPkgDir (f : FS) (goPath : Path) (r P : List String) : Bool :=
+/-- Well-formedness of the arguments (decidable; conditions on the form of the inputs, **no divergence class**):
+    * GOPATH is a clean path (relative for an `io/fs` file system, which accepts no other name), `r` and `P`
+      are clean, `P` is not empty;
+    * the tree holds the parent `<level>/vendor` of every directory `<level>/vendor/<P>` it holds (true of
+      any file system; the `FS` of the model is two lists). -/
+def wfTree (f : FS) (goPath : Path) (r P : List String) : Bool :=
   let gs := goPath ++ ["src"]
   goodPath goPath && (!f.mapfs || NormRel goPath) && NormRel r && NormRel P && !P.isEmpty &&
-  (f.stat (gs ++ P) != .file) &&
-  (List.range (r.length + 1)).all (fun k =>
-    (f.stat (vd gs r k ++ P) != .file) &&
-    (!Spec.isDir f (vd gs r k ++ P) || (Spec.isDir f (vd gs r k) && Spec.hasGo f (vd gs r k ++ P))) &&
-    (k == 0 || !f.exists (join [goPath, [W.src], effectivePkg (pathOf (r.take k)) P])) &&
-    (k == 0 || decide (r.length ≤ k) || f.stat (vd gs r k) != .file))
+  (List.range (r.length + 1)).all (fun k => !Spec.isDir f (vd gs r k ++ P) || Spec.isDir f (vd gs r k))
 
-theorem domPkgDir_sound (f : FS) (goPath : Path) (r P : List String) (h : domPkgDir f goPath r P = true) :
-    DomP f goPath r P := by
-  simp only [domPkgDir, Bool.and_eq_true, Bool.or_eq_true, Bool.not_eq_true', List.all_eq_true, List.mem_range,
-    bne_iff_ne, ne_eq, beq_iff_eq, decide_eq_true_eq, List.isEmpty_eq_false_iff] at h
-  obtain ⟨⟨⟨⟨⟨⟨h1, h2⟩, h3⟩, h4⟩, h5⟩, h6⟩, h7⟩ := h
-  refine ⟨h1, ?_, h3, h4, h5, ?_, h6, ?_, ?_, ?_⟩
+theorem wfTree_sound (f : FS) (goPath : Path) (r P : List String) (h : wfTree f goPath r P = true) :
+    WF f goPath r P := by
+  simp only [wfTree, Bool.and_eq_true, Bool.or_eq_true, Bool.not_eq_true', List.all_eq_true, List.mem_range,
+    List.isEmpty_eq_false_iff] at h
+  obtain ⟨⟨⟨⟨⟨h1, h2⟩, h3⟩, h4⟩, h5⟩, h6⟩ := h
+  refine ⟨h1, ?_, h3, h4, h5, ?_⟩
   · intro hm; rcases h2 with h | h
     · rw [hm] at h; cases h
     · exact h
-  · intro k hk; exact (h7 k (by omega)).1.1.1
   · intro k hk hd
-    rcases (h7 k (by omega)).1.1.2 with h | h
+    rcases h6 k (by omega) with h | h
     · rw [hd] at h; cases h
     · exact h
-  · intro k hk1 hk2
-    rcases (h7 k (by omega)).1.2 with h | h
-    · omega
-    · exact h
-  · intro k hk1 hk2
-    rcases (h7 k (by omega)).2 with (h | h) | h
-    · omega
-    · omega
-    · exact h
 
-/-- **Resolution = the Go rule** (nearest enclosing `vendor/<P>` walking up from the importing directory,
-    else `GOPATH/src/<P>`, else not found), for every tree, GOPATH, importing directory and import path in
-    `domPkgDir`; `root.length + 1` nested calls suffice. -/
-theorem pkgDir_eq_spec_partial (f : FS) (goPath : Path) (r P : List String) (h : domPkgDir f goPath r P = true)
-    (fuel : Nat) (hfuel : r.length + 1 ≤ fuel) :
-    (pkgDir Expected.C16.words f goPath fuel (pathOf r) P).toOpt = some (Spec.resolve f (goPath ++ ["src"]) r P) := by
-  have := pkgDir_levels f goPath r P (domPkgDir_sound f goPath r P h) r.length (Nat.le_refl _) fuel hfuel
+/-- **Resolution = the Go rule** (nearest enclosing `vendor/<P>` holding Go files walking up from the
+    importing directory, else `GOPATH/src/<P>`, else not found), for every tree, GOPATH, importing directory
+    and import path: what importSrc's resolution (`lookup` = goPkgDir over pkgDir and previousRoot) finds is
+    what go/build's GOPATH-mode vendor search finds.  No class of inputs is excluded. -/
+theorem pkgDir_eq_spec (f : FS) (goPath : Path) (r P : List String) (h : wfTree f goPath r P = true) :
+    (lookup Expected.C16.words f goPath (pathOf r) P).toOpt = some (Spec.resolve f (goPath ++ ["src"]) r P) := by
+  rw [show Expected.C16.words = W from rfl, lookup_levels f goPath r P (wfTree_sound f goPath r P h), resultFrom_toOpt]
+  rfl
+
+/-- the same for goPkgDir with any sufficient bound on its loop -/
+theorem goPkgDir_eq_spec (f : FS) (goPath : Path) (r P : List String) (h : wfTree f goPath r P = true)
+    (n : Nat) (hn : r.length + 3 ≤ n) :
+    (goPkgDir Expected.C16.words f goPath n (pathOf r) P).toOpt = some (Spec.resolve f (goPath ++ ["src"]) r P) := by
+  have := goPkgDir_levels f goPath r P (wfTree_sound f goPath r P h) r.length (Nat.le_refl _) n hn
   rw [List.take_length] at this
   rw [show Expected.C16.words = W from rfl, this, resultFrom_toOpt]
   rfl
 
-/-- the same about the words and the order of attempts regenerated from interp/src.go -/
-theorem pkgDir_eq_spec_generated (f : FS) (goPath : Path) (r P : List String) (h : domPkgDir f goPath r P = true) :
-    (pkgDir Generated.C16.words f goPath (defaultFuel (pathOf r)) (pathOf r) P).toOpt =
-      some (Spec.resolve f (goPath ++ ["src"]) r P) := by
+/-- the same about the words and decisions regenerated from interp/src.go -/
+theorem pkgDir_eq_spec_generated (f : FS) (goPath : Path) (r P : List String) (h : wfTree f goPath r P = true) :
+    (lookup Generated.C16.words f goPath (pathOf r) P).toOpt = some (Spec.resolve f (goPath ++ ["src"]) r P) := by
   rw [words_tie]
-  apply pkgDir_eq_spec_partial f goPath r P h
-  unfold defaultFuel pathOf
-  cases r with
-  | nil => simp [emptyS]
-  | cons a b => simp; omega
+  exact pkgDir_eq_spec f goPath r P h
 
-/-- **Termination** (`pkgDir_terminates`): the recursion of pkgDir through previousRoot strictly shortens the
-    root, so `root.length + 1` nested calls always suffice and no error is produced, for any import path and
-    any tree in which no proper ancestor of the root holds a regular file named `vendor`. -/
-theorem pkgDir_terminates (f : FS) (goPath : Path) (r : List String) (P : Path)
-    (hgo : goodPath goPath = true) (hrel : f.mapfs = true → NormRel goPath = true) (hr : NormRel r = true)
-    (hfile : ∀ k, 1 ≤ k → k < r.length → f.stat (vd (goPath ++ ["src"]) r k) ≠ .file)
+/-- pkgDir alone looks at directories only: it returns the nearest enclosing `vendor/<P>` *directory*, with or
+    without Go files, else `GOPATH/src/<P>`; goPkgDir restarts it above a directory without Go files. -/
+theorem pkgDir_nearest_vendored_directory (f : FS) (goPath : Path) (r P : List String) (h : wfTree f goPath r P = true)
     (fuel : Nat) (hfuel : r.length + 1 ≤ fuel) :
-    pkgDir Expected.C16.words f goPath fuel (pathOf r) P ≠ .fuel ∧ pkgDir Expected.C16.words f goPath fuel (pathOf r) P ≠ .err := by
-  have := pkgDir_no_fuel f goPath r P hgo hrel hr hfile r.length (Nat.le_refl _) fuel hfuel
+    pkgDir Expected.C16.words f goPath fuel (pathOf r) P = dirResult f (goPath ++ ["src"]) r P r.length := by
+  have := pkgDir_levels f goPath r P (wfTree_sound f goPath r P h) r.length (Nat.le_refl _) fuel hfuel
   rw [List.take_length] at this
   exact this
 
-/-- each step of that recursion: previousRoot returns a proper prefix of the root and skips no level that
-    has a vendor directory -/
+/-- **Termination** (`pkgDir_terminates`): the recursion of pkgDir through previousRoot strictly shortens the
+    root, so `root.length + 1` nested calls always suffice and no error is produced, for any import path and
+    any tree (a regular file named `vendor` does not stop the walk any more: F16-9 repaired). -/
+theorem pkgDir_terminates (f : FS) (goPath : Path) (r : List String) (P : Path)
+    (hgo : goodPath goPath = true) (hrel : f.mapfs = true → NormRel goPath = true) (hr : NormRel r = true)
+    (fuel : Nat) (hfuel : r.length + 1 ≤ fuel) :
+    pkgDir Expected.C16.words f goPath fuel (pathOf r) P ≠ .fuel ∧ pkgDir Expected.C16.words f goPath fuel (pathOf r) P ≠ .err := by
+  have := pkgDir_no_fuel f goPath r P hgo hrel hr r.length (Nat.le_refl _) fuel hfuel
+  rw [List.take_length] at this
+  exact this
+
+/-- the loop of goPkgDir ends too: `root.length + 3` rounds suffice -/
+theorem goPkgDir_terminates (f : FS) (goPath : Path) (r P : List String) (h : wfTree f goPath r P = true)
+    (n : Nat) (hn : r.length + 3 ≤ n) :
+    goPkgDir Expected.C16.words f goPath n (pathOf r) P ≠ .fuel ∧ goPkgDir Expected.C16.words f goPath n (pathOf r) P ≠ .err :=
+  goPkgDir_ok f goPath r P (wfTree_sound f goPath r P h) n hn
+
+/-- each step of pkgDir's recursion: previousRoot returns a proper prefix of the root and skips no level that
+    has a vendor directory, whatever else the tree holds -/
 theorem previousRoot_shrinks (f : FS) (gs : Path) (r : List String) (hg : goodPath gs = true)
-    (hm : f.mapfs = true → NormRel gs = true) (hr : NormRel r = true) (hne : r ≠ [])
-    (hfile : ∀ i, 1 ≤ i → i < r.length → f.stat (vd gs r i) ≠ .file) :
+    (hm : f.mapfs = true → NormRel gs = true) (hr : NormRel r = true) (hne : r ≠ []) :
     ∃ k, k < r.length ∧ previousRoot Expected.C16.words f (gs ++ r) r = .ok (pathOf (r.take k)) ∧
       ∀ i, k < i → i < r.length → f.stat (vd gs r i) ≠ .dir :=
-  previousRoot_levels f gs r hg hm hr hne hfile
+  previousRoot_levels f gs r hg hm hr hne
+
+/-- **An importer that is not below GOPATH/src sees no vendor directory**: from `noRoot` the resolution is
+    `GOPATH/src/<P>` or nothing (the Go rule for a main file outside GOPATH; F16-6 repaired). -/
+theorem outside_gopath_no_vendor (f : FS) (goPath : Path) (P : List String) (hgo : goodPath goPath = true)
+    (hrel : f.mapfs = true → NormRel goPath = true) (hP : NormRel P = true) (hne : P ≠ []) :
+    lookup Expected.C16.words f goPath [Expected.C16.words.noRoot] P =
+      if Spec.isDir f (goPath ++ ["src"] ++ P) then .found (goPath ++ ["src"] ++ P) emptyS else .notFound :=
+  lookup_noRoot f goPath P hgo hrel hP hne
 
 
-/-! ### non-vacuity and witnesses -/
+/-! ### non-vacuity, and the replays of the repaired findings -/
 
 /-- GOPATH=gp; app/cmd imports lib; lib is vendored below app (one level up) and also in GOPATH/src -/
 def exFS : FS :=
@@ -214,59 +244,45 @@ def exFS : FS :=
               ["gp", "src", "lib", "lib.go"]],
     mapfs := true }
 
-/-- the domain is inhabited by a case that needs the walk upwards (previousRoot) -/
-example : domPkgDir exFS ["gp"] ["app", "cmd"] ["lib"] = true ∧
-    pkgDir Expected.C16.words exFS ["gp"] 3 ["app", "cmd"] ["lib"] =
+/-- a case that needs the walk upwards (previousRoot) -/
+example : wfTree exFS ["gp"] ["app", "cmd"] ["lib"] = true ∧
+    lookup Expected.C16.words exFS ["gp"] ["app", "cmd"] ["lib"] =
       .found ["gp", "src", "app", "vendor", "lib"] ["app", "vendor"] ∧
     Spec.resolve exFS ["gp", "src"] ["app", "cmd"] ["lib"] = some ["gp", "src", "app", "vendor", "lib"] := by
   decide
 
-/-- `nested_under_root_witness`: effectivePkg(root, path) also answers to `root/path`, so
-    GOPATH/src/app/lib shadows GOPATH/src/lib for `import "lib"` inside app (class `found-under-root`). -/
+/-- F16-1 (repaired by 0a59e0e): GOPATH/src/app/lib does not shadow GOPATH/src/lib for `import "lib"` inside
+    app any more; with the facts extracted before the repair (`oldWords`) the model reproduces the finding. -/
 def nestedFS : FS :=
   { dirs := [["gp"], ["gp", "src"], ["gp", "src", "app"], ["gp", "src", "app", "lib"], ["gp", "src", "lib"]],
     files := [["gp", "src", "app", "app.go"], ["gp", "src", "app", "lib", "lib.go"], ["gp", "src", "lib", "lib.go"]],
     mapfs := true }
 
-theorem nested_under_root_witness :
-    domPkgDir nestedFS ["gp"] ["app"] ["lib"] = false ∧
-    pkgDir Expected.C16.words nestedFS ["gp"] 2 ["app"] ["lib"] = .found ["gp", "src", "app", "lib"] ["app"] ∧
-    Spec.resolve nestedFS ["gp", "src"] ["app"] ["lib"] = some ["gp", "src", "lib"] := by
+example :
+    wfTree nestedFS ["gp"] ["app"] ["lib"] = true ∧
+    lookup Expected.C16.words nestedFS ["gp"] ["app"] ["lib"] = .found ["gp", "src", "lib"] emptyS ∧
+    Spec.resolve nestedFS ["gp", "src"] ["app"] ["lib"] = some ["gp", "src", "lib"] ∧
+    lookup Expected.C16.oldWords nestedFS ["gp"] ["app"] ["lib"] = .found ["gp", "src", "app", "lib"] ["app"] := by
   decide
 
-/-- F16: a main package given as `./` (importSrc then passes the root "."), in the directory
-    GOPATH/src/app which has its own vendor/lib: yaegi resolves `lib` to GOPATH/src/lib, the Go rule from
-    the importing directory `app` gives app/vendor/lib (class `main-given-as-dot`). -/
-def dotFS : FS :=
-  { dirs := [["", ""], ["", "w"], ["", "w", "gp"], ["", "w", "gp", "src"], ["", "w", "gp", "src", "app"],
-             ["", "w", "gp", "src", "app", "vendor"], ["", "w", "gp", "src", "app", "vendor", "lib"],
-             ["", "w", "gp", "src", "lib"]],
-    files := [["", "w", "gp", "src", "app", "main.go"], ["", "w", "gp", "src", "app", "vendor", "lib", "lib.go"],
-              ["", "w", "gp", "src", "lib", "lib.go"]],
-    mapfs := false }
-
-theorem dot_main_ignores_vendor_witness :
-    pkgDir Expected.C16.words dotFS ["", "w", "gp"] (defaultFuel ["."]) ["."] ["lib"] =
-      .found ["", "w", "gp", "src", "lib"] ["."] ∧
-    Spec.resolve dotFS ["", "w", "gp", "src"] ["app"] ["lib"] = some ["", "w", "gp", "src", "app", "vendor", "lib"] := by
-  decide
-
-/-- a directory `vendor/x` that exists only because `vendor/x/y` is a package: go/build skips it (no Go
-    files) and finds GOPATH/src/x, pkgDir stops at it (class `vendor-dir-without-go-files`). -/
+/-- F16-2 (repaired by 7bcf875): a directory `vendor/x` that exists only because `vendor/x/y` is a package is
+    skipped, as go/build does; before: pkgDir stopped at it. -/
 def noGoFS : FS :=
   { dirs := [["gp"], ["gp", "src"], ["gp", "src", "app"], ["gp", "src", "app", "vendor"], ["gp", "src", "app", "vendor", "x"],
              ["gp", "src", "app", "vendor", "x", "y"], ["gp", "src", "x"]],
     files := [["gp", "src", "app", "app.go"], ["gp", "src", "app", "vendor", "x", "y", "y.go"], ["gp", "src", "x", "x.go"]],
     mapfs := true }
 
-theorem vendor_dir_without_go_files_witness :
-    domPkgDir noGoFS ["gp"] ["app"] ["x"] = false ∧
+example :
+    wfTree noGoFS ["gp"] ["app"] ["x"] = true ∧
+    lookup Expected.C16.words noGoFS ["gp"] ["app"] ["x"] = .found ["gp", "src", "x"] emptyS ∧
+    Spec.resolve noGoFS ["gp", "src"] ["app"] ["x"] = some ["gp", "src", "x"] ∧
     pkgDir Expected.C16.words noGoFS ["gp"] 2 ["app"] ["x"] = .found ["gp", "src", "app", "vendor", "x"] ["app", "vendor"] ∧
-    Spec.resolve noGoFS ["gp", "src"] ["app"] ["x"] = some ["gp", "src", "x"] := by
+    lookup Expected.C16.oldWords noGoFS ["gp"] ["app"] ["x"] = .found ["gp", "src", "app", "vendor", "x"] ["app", "vendor"] := by
   decide
 
-/-- a regular file named `vendor` in an ancestor makes previousRoot give up the walk (it returns "" with
-    a nil error), so the vendor directory further up is never looked at (class `vendor-is-a-file`). -/
+/-- F16-9 (repaired by d708752): a regular file named `vendor` in an ancestor does not stop previousRoot's walk
+    (before: it returned "" with a nil error and the vendor directory further up was never looked at)… -/
 def vendorFileFS : FS :=
   { dirs := [["gp"], ["gp", "src"], ["gp", "src", "app"], ["gp", "src", "app", "sub"], ["gp", "src", "app", "sub", "deep"],
              ["gp", "src", "app", "vendor"], ["gp", "src", "app", "vendor", "lib"]],
@@ -274,24 +290,39 @@ def vendorFileFS : FS :=
               ["gp", "src", "app", "vendor", "lib", "lib.go"]],
     mapfs := true }
 
-theorem vendor_is_a_file_witness :
-    domPkgDir vendorFileFS ["gp"] ["app", "sub", "deep"] ["lib"] = false ∧
-    pkgDir Expected.C16.words vendorFileFS ["gp"] 4 ["app", "sub", "deep"] ["lib"] = .notFound ∧
-    Spec.resolve vendorFileFS ["gp", "src"] ["app", "sub", "deep"] ["lib"] = some ["gp", "src", "app", "vendor", "lib"] := by
+example :
+    wfTree vendorFileFS ["gp"] ["app", "sub", "deep"] ["lib"] = true ∧
+    lookup Expected.C16.words vendorFileFS ["gp"] ["app", "sub", "deep"] ["lib"] =
+      .found ["gp", "src", "app", "vendor", "lib"] ["app", "vendor"] ∧
+    Spec.resolve vendorFileFS ["gp", "src"] ["app", "sub", "deep"] ["lib"] = some ["gp", "src", "app", "vendor", "lib"] ∧
+    lookup Expected.C16.oldWords vendorFileFS ["gp"] ["app", "sub", "deep"] ["lib"] = .notFound := by
+  decide
+
+/-- …and a regular file at a candidate path is not a package directory (before: it counted as found). -/
+def candFileFS : FS :=
+  { dirs := [["gp"], ["gp", "src"], ["gp", "src", "app"], ["gp", "src", "app", "vendor"], ["gp", "src", "lib"]],
+    files := [["gp", "src", "app", "app.go"], ["gp", "src", "app", "vendor", "lib"], ["gp", "src", "lib", "lib.go"]],
+    mapfs := true }
+
+example :
+    wfTree candFileFS ["gp"] ["app"] ["lib"] = true ∧
+    lookup Expected.C16.words candFileFS ["gp"] ["app"] ["lib"] = .found ["gp", "src", "lib"] emptyS ∧
+    Spec.resolve candFileFS ["gp", "src"] ["app"] ["lib"] = some ["gp", "src", "lib"] ∧
+    lookup Expected.C16.oldWords candFileFS ["gp"] ["app"] ["lib"] =
+      .found ["gp", "src", "app", "vendor", "lib"] ["app", "vendor"] := by
   decide
 
 
 /-- the sub-root handed to the imports of the package just found (`effectivePkg(rPath, importPath)` in
     importSrc) **is the directory that was found**, so the next resolution starts from the right place:
-    resolution composes along import chains.  Needs `vendor` not to be an element of the import path. -/
-theorem subroot_is_found_dir (f : FS) (goPath : Path) (r P : List String) (h : domPkgDir f goPath r P = true)
-    (hv : "vendor" ∉ P) (fuel : Nat) (hfuel : r.length + 1 ≤ fuel) (d rp : Path)
-    (hres : pkgDir Expected.C16.words f goPath fuel (pathOf r) P = .found d rp) :
+    resolution composes along import chains.  `vendor` is no element of the import path before its last one:
+    importSrc rejects the others before resolving (`vendor_element_rejected`). -/
+theorem subroot_is_found_dir (f : FS) (goPath : Path) (r P : List String) (h : wfTree f goPath r P = true)
+    (hv : "vendor" ∉ P.dropLast) (d rp : Path)
+    (hres : lookup Expected.C16.words f goPath (pathOf r) P = .found d rp) :
     goPath ++ ["src"] ++ effectivePkg rp P = d := by
-  have D := domPkgDir_sound f goPath r P h
-  have hl := pkgDir_levels f goPath r P D r.length (Nat.le_refl _) fuel hfuel
-  rw [List.take_length] at hl
-  rw [show Expected.C16.words = W from rfl, hl] at hres
+  have D := wfTree_sound f goPath r P h
+  rw [show Expected.C16.words = W from rfl, lookup_levels f goPath r P D] at hres
   have shape : ∀ k x, searchR f (goPath ++ ["src"]) r P k = some x →
       ∃ j, x = .found (vd (goPath ++ ["src"]) r j ++ P) (r.take j ++ ["vendor"]) := by
     intro k
@@ -317,16 +348,7 @@ theorem subroot_is_found_dir (f : FS) (goPath : Path) (r P : List String) (h : d
     rw [hj] at hres
     simp only [DirR.found.injEq] at hres
     obtain ⟨rfl, rfl⟩ := hres
-    have hn : NormRel (r.take j ++ ["vendor"]) = true := by
-      rw [normRel_append, normRel_take r j D.normR]; rfl
-    have hdom : domEff (r.take j ++ ["vendor"]) P = true := by
-      simp only [domEff, hn, D.normP, Bool.and_eq_true, Bool.not_eq_true', List.isEmpty_eq_false_iff, List.all_eq_true,
-        true_and]
-      refine ⟨D.neP, ?_⟩
-      intro e he
-      have hne : e ≠ "vendor" := fun h0 => hv (h0 ▸ (List.dropLast_sublist P).subset he)
-      simp [rootEndsWith, List.getLast?_append, Ne.symm hne]
-    have heff := effectivePkg_spec_partial _ P hdom
+    have heff := effectivePkg_below_vendor (r.take j) P (normRel_take r j D.normR) D.normP D.neP hv
     have hp1 : pathOf (r.take j ++ ["vendor"]) = r.take j ++ ["vendor"] := by simp [pathOf]
     have hp2 : pathOf (r.take j ++ ["vendor"] ++ P) = r.take j ++ ["vendor"] ++ P := by simp [pathOf]
     rw [hp1, hp2] at heff
@@ -353,28 +375,37 @@ theorem resolve_ignores_fs_kind (f : FS) (b1 b2 : Bool) (gs : Path) (r P : List 
   unfold Spec.resolve
   rw [hs]; rfl
 
-/-- **The same tree gives the same resolution through `io/fs` and on disk**: with both views of one tree
-    (`mapfs := true` / `false`) in the domain, pkgDir finds the same directory — the Go rule reads only the
-    sets of directories and files.  (What the domain excludes here is an absolute or unclean GOPATH, which an
-    `io/fs` file system rejects: finding F16-5.) -/
+/-- **The same tree gives the same resolution through `io/fs` and on disk**: with well-formed arguments for
+    both views of one tree (`mapfs := true` / `false`; for `io/fs` this means a clean relative GOPATH, the
+    only kind of name such a file system accepts), the resolution finds the same directory — the Go rule reads
+    only the sets of directories and files. -/
 theorem same_on_both_file_systems (f : FS) (goPath : Path) (r P : List String)
-    (h1 : domPkgDir { f with mapfs := true } goPath r P = true)
-    (h2 : domPkgDir { f with mapfs := false } goPath r P = true) (fuel : Nat) (hfuel : r.length + 1 ≤ fuel) :
-    (pkgDir Expected.C16.words { f with mapfs := true } goPath fuel (pathOf r) P).toOpt =
-    (pkgDir Expected.C16.words { f with mapfs := false } goPath fuel (pathOf r) P).toOpt := by
-  rw [pkgDir_eq_spec_partial _ goPath r P h1 fuel hfuel, pkgDir_eq_spec_partial _ goPath r P h2 fuel hfuel,
-    resolve_ignores_fs_kind f true false]
+    (h1 : wfTree { f with mapfs := true } goPath r P = true)
+    (h2 : wfTree { f with mapfs := false } goPath r P = true) :
+    (lookup Expected.C16.words { f with mapfs := true } goPath (pathOf r) P).toOpt =
+    (lookup Expected.C16.words { f with mapfs := false } goPath (pathOf r) P).toOpt := by
+  rw [pkgDir_eq_spec _ goPath r P h1, pkgDir_eq_spec _ goPath r P h2, resolve_ignores_fs_kind f true false]
 
-example : domPkgDir { exFS with mapfs := true } ["gp"] ["app", "cmd"] ["lib"] = true ∧
-    domPkgDir { exFS with mapfs := false } ["gp"] ["app", "cmd"] ["lib"] = true := by decide
+example : wfTree { exFS with mapfs := true } ["gp"] ["app", "cmd"] ["lib"] = true ∧
+    wfTree { exFS with mapfs := false } ["gp"] ["app", "cmd"] ["lib"] = true := by decide
 
-/-! ## relative imports -/
+
+/-! ## the resolution step of importSrc: from which directory -/
+
+/-- what a caller of the resolution step looks at: the directory, or none (an error message) -/
+def resolvedDir : ResolveR → Option (Option Path)
+  | .found d _ => some (some d)
+  | .notFound => some none
+  | .notInGopath => some none
+  | .notAllowed => none
+  | .err => none
+  | .fuel => none
 
 /-- **A relative import in the main package resolves against the directory of the input file**
     (`filepath.Dir(interp.name)`), whatever the file system, GOPATH and working directory. -/
 theorem relative_import_main (f : FS) (goPath wd name P : Path) (hrel : isPathRelative P = true) :
     resolveImport Expected.C16.words f goPath wd name [Expected.C16.words.mainID] P =
-      some (Spec.resolveRel (dir name) P, ["."]) := by
+      .found (Spec.resolveRel (dir name) P) ["."] := by
   unfold resolveImport Spec.resolveRel
   have hlen : 2 ≤ P.length := by
     unfold isPathRelative at hrel
@@ -388,7 +419,194 @@ theorem relative_import_main (f : FS) (goPath wd name P : Path) (hrel : isPathRe
 
 /-- non-vacuity: `./sub` imported from the main file `cmd/tool/main.go` is `cmd/tool/sub` -/
 example : resolveImport Expected.C16.words exFS ["gp"] ["", "w"] ["cmd", "tool", "main.go"] ["main"] [".", "sub"] =
-    some (["cmd", "tool", "sub"], ["."]) := by decide
+    .found ["cmd", "tool", "sub"] ["."] := by decide
+
+/-- **An import path with a `vendor` element before its last one is rejected** before any resolution, as by
+    the go tool ("must be imported as …"), whatever the tree (F16-3 repaired by 798cc39). -/
+theorem vendor_element_rejected (f : FS) (goPath wd name rPath P : Path) (hrel : isPathRelative P = false)
+    (hv : "vendor" ∈ P.dropLast) :
+    resolveImport Expected.C16.words f goPath wd name rPath P = .notAllowed := by
+  unfold resolveImport hasVendorElem
+  have h1 : Expected.C16.words.rejectVendor = true := rfl
+  have h2 : Expected.C16.words.vendor = "vendor" := rfl
+  have h3 : P.dropLast.contains "vendor" = true := by simpa using hv
+  simp only [hrel, Bool.false_eq_true, if_false, h1, h2, h3, Bool.and_self, if_true]
+
+example : resolveImport Expected.C16.words exFS ["gp"] ["", "w"] ["_.go"] ["main"] ["vendor", "x"] = .notAllowed ∧
+    resolveImport Expected.C16.words exFS ["gp"] ["", "w"] ["_.go"] ["app"] ["app", "vendor", "lib"] = .notAllowed := by decide
+
+/-- **The imports of a main file below GOPATH/src are resolved from its directory, by the Go rule** — full
+    strength: for every tree, absolute GOPATH, directory `r` of the input file below GOPATH/src, working
+    directory and import path without vendor element (F16-4 repaired by 8825ce6: mainRoot; the second attempt
+    starts from the same directory, so it changes nothing here). -/
+theorem main_imports_from_source_dir (f : FS) (goPath wd : Path) (r P : List String) (file : String)
+    (h : wfTree f goPath r P = true) (habs : isRooted goPath = true) (hne : r ≠ []) (hv : "vendor" ∉ P.dropLast) :
+    resolvedDir (resolveImport Expected.C16.words f goPath wd (goPath ++ ["src"] ++ r ++ [file]) [Expected.C16.words.mainID] P) =
+      some (Spec.resolve f (goPath ++ ["src"]) r P) := by
+  have D := wfTree_sound f goPath r P h
+  rw [show Expected.C16.words = W from rfl]
+  have hloc := rootFromSourceLocation_below wd goPath r file D.goodGo habs D.normR hne
+  have hspec := pkgDir_eq_spec f goPath r P h
+  rw [show Expected.C16.words = W from rfl] at hspec
+  have hpo : pathOf r = r := by simp [pathOf, hne]
+  unfold resolveImport mainRoot hasVendorElem
+  have h1 : W.rejectVendor = true := rfl
+  have h2 : W.vendor = "vendor" := rfl
+  have h3 : P.dropLast.contains "vendor" = false := by simpa using hv
+  have h4 : W.mainRoot = true := rfl
+  simp only [isPathRelative_norm P D.normP, Bool.false_eq_true, if_false, h1, h2, h3, Bool.and_false, h4, Bool.not_true,
+    BEq.rfl, if_true, hloc, Option.getD_some]
+  have hl' : lookup W f goPath r P = lookup W f goPath (pathOf r) P := by rw [hpo]
+  rw [hl']
+  cases hl : lookup W f goPath (pathOf r) P with
+  | found d rp => rw [hl] at hspec; simpa [DirR.toOpt, resolvedDir] using hspec
+  | notFound => rw [hl] at hspec; simpa [DirR.toOpt, resolvedDir] using hspec
+  | err => rw [hl] at hspec; simp [DirR.toOpt] at hspec
+  | fuel => rw [hl] at hspec; simp [DirR.toOpt] at hspec
+
+/-- **The imports of a source string (no input file) are resolved from GOPATH/src only**: no vendor directory
+    applies to an importer that is not below GOPATH/src (F16-6 repaired by 8825ce6). -/
+theorem main_without_file_sees_no_vendor (f : FS) (goPath wd : Path) (P : List String) (hgo : goodPath goPath = true)
+    (hrel : f.mapfs = true → NormRel goPath = true) (hP : NormRel P = true) (hne : P ≠ []) (hv : "vendor" ∉ P.dropLast) :
+    resolvedDir (resolveImport Expected.C16.words f goPath wd [Expected.C16.words.defaultName] [Expected.C16.words.mainID] P) =
+      some (if Spec.isDir f (goPath ++ ["src"] ++ P) then some (goPath ++ ["src"] ++ P) else none) := by
+  rw [show Expected.C16.words = W from rfl]
+  unfold resolveImport mainRoot hasVendorElem rootFromSourceLocation
+  have h1 : W.rejectVendor = true := rfl
+  have h2 : W.vendor = "vendor" := rfl
+  have h3 : P.dropLast.contains "vendor" = false := by simpa using hv
+  have h4 : W.mainRoot = true := rfl
+  simp only [isPathRelative_norm P hP, Bool.false_eq_true, if_false, h1, h2, h3, Bool.and_false, h4, Bool.not_true,
+    BEq.rfl, if_true, Bool.true_or, Option.getD_some]
+  rw [lookup_noRoot f goPath P hgo hrel hP hne]
+  cases Spec.isDir f (goPath ++ ["src"] ++ P) <;> simp [resolvedDir]
+
+/-- Domain of the theorem about the imports of a package found below GOPATH/src: the Go rule resolves the import
+    from the importing directory, or the second attempt of importSrc has no other place to start from (no input
+    file, or an input file that is not below GOPATH/src).  Outside: class `retried-from-main-location`, F16-11. -/
+def domRetry (f : FS) (goPath wd name : Path) (r P : List String) : Bool :=
+  (Spec.resolve f (goPath ++ ["src"]) r P).isSome ||
+  (match rootFromSourceLocation Expected.C16.words wd name goPath with
+   | none => true
+   | some root => root == [Expected.C16.words.noRoot])
+
+/-- **The imports of a package are resolved from its own directory, by the Go rule** (`r`: the directory of the
+    importing package below GOPATH/src, as handed on by importSrc — see `subroot_is_found_dir`), on `domRetry`. -/
+theorem imports_from_package_dir_partial (f : FS) (goPath wd name : Path) (r P : List String)
+    (h : wfTree f goPath r P = true) (hne : r ≠ []) (hmain : r ≠ ["main"]) (hv : "vendor" ∉ P.dropLast)
+    (hd : domRetry f goPath wd name r P = true) :
+    resolvedDir (resolveImport Expected.C16.words f goPath wd name (pathOf r) P) =
+      some (Spec.resolve f (goPath ++ ["src"]) r P) := by
+  have D := wfTree_sound f goPath r P h
+  have hspec := pkgDir_eq_spec f goPath r P h
+  rw [show Expected.C16.words = W from rfl] at hspec ⊢
+  have hpo : pathOf r = r := by simp [pathOf, hne]
+  unfold resolveImport mainRoot hasVendorElem
+  have h1 : W.rejectVendor = true := rfl
+  have h2 : W.vendor = "vendor" := rfl
+  have h3 : P.dropLast.contains "vendor" = false := by simpa using hv
+  have h4 : W.mainRoot = true := rfl
+  have h5 : (pathOf r == [W.mainID]) = false := by
+    rw [hpo, beq_eq_false_iff_ne]; exact hmain
+  have h6 : isPathRelative (pathOf r) = false := by rw [hpo]; exact isPathRelative_norm r D.normR
+  simp only [isPathRelative_norm P D.normP, Bool.false_eq_true, if_false, h1, h2, h3, Bool.and_false, h4, Bool.not_true,
+    h5, h6]
+  cases hl : lookup W f goPath (pathOf r) P with
+  | found d rp => rw [hl] at hspec; simpa [DirR.toOpt, resolvedDir] using hspec
+  | err => rw [hl] at hspec; simp [DirR.toOpt] at hspec
+  | fuel => rw [hl] at hspec; simp [DirR.toOpt] at hspec
+  | notFound =>
+    rw [hl] at hspec
+    have hnone : Spec.resolve f (goPath ++ ["src"]) r P = none := by
+      simpa [DirR.toOpt] using hspec.symm
+    rw [hnone]
+    simp only [domRetry, hnone, Option.isSome_none, Bool.false_or] at hd
+    cases hloc : rootFromSourceLocation W wd name goPath with
+    | none => simp [resolvedDir]
+    | some root =>
+      rw [hloc] at hd
+      have hroot : root = [W.noRoot] := by simpa using hd
+      subst hroot
+      simp only
+      rw [lookup_noRoot f goPath P D.goodGo D.relGo D.normP D.neP]
+      have hgd : Spec.isDir f (goPath ++ ["src"] ++ P) = false := by
+        unfold Spec.resolve at hnone
+        split at hnone
+        · cases hnone
+        · split at hnone
+          · cases hnone
+          · rename_i hx; simpa using hx
+      have hgd' : Spec.isDir f (goPath ++ "src" :: P) = false := by simpa using hgd
+      simp [hgd', resolvedDir]
+
+/-- non-vacuity: inside the domain with an input file below GOPATH/src (the import resolves from app/cmd) -/
+example : domRetry exFS ["gp"] ["", "w"] ["gp", "src", "app", "cmd", "main.go"] ["app", "cmd"] ["lib"] = true ∧
+    resolveImport Expected.C16.words exFS ["gp"] ["", "w"] ["gp", "src", "app", "cmd", "main.go"] ["app", "cmd"] ["lib"] =
+      .found ["gp", "src", "app", "vendor", "lib"] ["app", "vendor"] := by decide
+
+/-- F16-11 (open): with the main file GOPATH/src/app/main.go, package `other` (not below app) importing `lib`
+    gets app/vendor/lib from importSrc's second attempt; the Go rule finds nothing (class `retried-from-main-location`). -/
+def retryFS : FS :=
+  { dirs := [["gp"], ["gp", "src"], ["gp", "src", "app"], ["gp", "src", "app", "vendor"], ["gp", "src", "app", "vendor", "lib"],
+             ["gp", "src", "other"]],
+    files := [["gp", "src", "app", "main.go"], ["gp", "src", "app", "vendor", "lib", "lib.go"], ["gp", "src", "other", "other.go"]],
+    mapfs := true }
+
+theorem retried_from_main_location_witness :
+    domRetry retryFS ["gp"] ["", "w"] ["gp", "src", "app", "main.go"] ["other"] ["lib"] = false ∧
+    resolveImport Expected.C16.words retryFS ["gp"] ["", "w"] ["gp", "src", "app", "main.go"] ["other"] ["lib"] =
+      .found ["gp", "src", "app", "vendor", "lib"] ["app", "vendor"] ∧
+    Spec.resolve retryFS ["gp", "src"] ["other"] ["lib"] = none := by
+  decide
+
+/-- F16 / F16-4 / F16-5 / F16-6 (repaired by 097e643 and 8825ce6): the main package of GOPATH/src/app, which has
+    its own vendor/lib, given as `./` from that directory (root "./."), as a file on disk, as a file of an
+    `io/fs` file system with a relative GOPATH — `lib` is app/vendor/lib each time; and a source string sees
+    GOPATH/src/lib, not GOPATH/src/vendor/lib.  With the old facts the model reproduces the findings. -/
+def dotFS : FS :=
+  { dirs := [["", ""], ["", "w"], ["", "w", "gp"], ["", "w", "gp", "src"], ["", "w", "gp", "src", "app"],
+             ["", "w", "gp", "src", "app", "vendor"], ["", "w", "gp", "src", "app", "vendor", "lib"],
+             ["", "w", "gp", "src", "lib"]],
+    files := [["", "w", "gp", "src", "app", "main.go"], ["", "w", "gp", "src", "app", "vendor", "lib", "lib.go"],
+              ["", "w", "gp", "src", "lib", "lib.go"]],
+    mapfs := false }
+
+def relFS : FS :=
+  { dirs := [["gp"], ["gp", "src"], ["gp", "src", "app"], ["gp", "src", "app", "vendor"], ["gp", "src", "app", "vendor", "lib"],
+             ["gp", "src", "vendor"], ["gp", "src", "vendor", "lib"], ["gp", "src", "lib"]],
+    files := [["gp", "src", "app", "main.go"], ["gp", "src", "app", "vendor", "lib", "lib.go"],
+              ["gp", "src", "vendor", "lib", "lib.go"], ["gp", "src", "lib", "lib.go"]],
+    mapfs := true }
+
+example :
+    -- EvalPath("./") in GOPATH/src/app: gta hands the root "./." on
+    resolveImport Expected.C16.words dotFS ["", "w", "gp"] ["", "w", "gp", "src", "app"] ["_.go"] [".", "."] ["lib"] =
+      .found ["", "w", "gp", "src", "app", "vendor", "lib"] ["app", "vendor"] ∧
+    pkgDir Expected.C16.oldWords dotFS ["", "w", "gp"] (defaultFuel ["."]) ["."] ["lib"] =
+      .found ["", "w", "gp", "src", "lib"] ["."] ∧
+    -- EvalPath(file) on disk
+    resolveImport Expected.C16.words dotFS ["", "w", "gp"] ["", "w"] ["", "w", "gp", "src", "app", "main.go"] ["main"] ["lib"] =
+      .found ["", "w", "gp", "src", "app", "vendor", "lib"] ["app", "vendor"] ∧
+    -- EvalPath(file) through io/fs with the relative GOPATH gp, the process being anywhere
+    resolveImport Expected.C16.words relFS ["gp"] ["", "anywhere"] ["gp", "src", "app", "main.go"] ["main"] ["lib"] =
+      .found ["gp", "src", "app", "vendor", "lib"] ["app", "vendor"] ∧
+    -- Eval(source string)
+    resolveImport Expected.C16.words relFS ["gp"] ["", "anywhere"] ["_.go"] ["main"] ["lib"] = .found ["gp", "src", "lib"] emptyS ∧
+    resolveImport Expected.C16.oldWords relFS ["gp"] ["", "anywhere"] ["_.go"] ["main"] ["lib"] =
+      .found ["gp", "src", "vendor", "lib"] ["vendor"] := by
+  decide
+
+/-- F16-10 (repaired by 7a55e13): the directory `rel1`, imported as `./rel1` by main and as `../rel1` by
+    `./rel2`, has one key: gta rewrites the second import to `./rel1` seen from `main`; the root handed on to a
+    relatively imported package is its path from the main package.  Before: two keys, evaluated twice. -/
+example :
+    gtaRel Expected.C16.words [".", "rel2"] ["..", "rel1"] = (["main"], [".", "rel1"]) ∧
+    gtaRel Expected.C16.words ["main"] [".", "rel1"] = (["main"], [".", "rel1"]) ∧
+    subRPath Expected.C16.words ["."] [".", "rel2"] = [".", "rel2"] ∧
+    subRPath Expected.C16.words ["."] [".", ""] = [".", "."] ∧
+    gtaRel Expected.C16.oldWords ["rel2"] ["..", "rel1"] = (["rel2"], ["..", "rel1"]) ∧
+    subRPath Expected.C16.oldWords ["."] [".", "rel2"] = ["rel2"] := by
+  decide
 
 /-! ## importSrc: once only, in dependency order, never recursing without end -/
 
@@ -422,20 +640,21 @@ theorem import_dependency_order (res : Resolver) (hasGo : String → Bool) (impo
     `import cycle not allowed`… -/
 theorem cycle_is_error (res : Resolver) (hasGo : String → Bool) (importsOf : String → List String) (subRoot : String → String → String)
     (fuel : Nat) (st : ImpState) (rPath p d rp : String)
-    (hres : res rPath p = some (d, rp)) (hin : p ∈ st.rdir) (hnot : p ∉ st.srcPkg) :
+    (hres : res rPath p = .ok (d, rp)) (hin : p ∈ st.rdir) (hnot : p ∉ st.srcPkg) :
     importSrc fullBook res hasGo importsOf subRoot (fuel + 1) st rPath p = .error (.cycle p) :=
   importSrc_in_progress_is_cycle res hasGo importsOf subRoot fuel st rPath p d rp hres hin hnot
 
-/-- …**instead of recursing for ever**: with the import paths of the program drawn from a finite list `U`,
-    the nesting depth never exceeds the number of paths of `U` not yet marked, plus one. -/
+/-- …**instead of recursing for ever**: with the import paths of the program drawn from a finite list `U`
+    (and a resolver that itself terminates: `pkgDir_terminates`, `goPkgDir_terminates`), the nesting depth
+    never exceeds the number of paths of `U` not yet marked, plus one. -/
 theorem import_depth_bounded (res : Resolver) (hasGo : String → Bool) (importsOf : String → List String) (subRoot : String → String → String)
-    (U : List String) (hU : ∀ d i, i ∈ importsOf d → i ∈ U)
+    (U : List String) (hU : ∀ d i, i ∈ importsOf d → i ∈ U) (hres : ∀ rp q, res rp q ≠ .error .fuel)
     (fuel : Nat) (st : ImpState) (rPath p : String) (hp : p ∈ U) (hfuel : unmarked U st.rdir < fuel) :
     importSrc fullBook res hasGo importsOf subRoot fuel st rPath p ≠ .error .fuel :=
-  importSrc_no_fuel res hasGo importsOf subRoot U hU fuel st rPath p hp hfuel
+  importSrc_no_fuel res hasGo importsOf subRoot U hU hres fuel st rPath p hp hfuel
 
 /-- non-vacuity: a diamond (a → c, b → c) evaluates c once, before a and b; a two-cycle is an error -/
-def diamondRes : Resolver := fun _ p => some ("gp/src/" ++ p, "")
+def diamondRes : Resolver := fun _ p => .ok ("gp/src/" ++ p, "")
 def diamondImports : String → List String
   | "gp/src/a" => ["c"]
   | "gp/src/b" => ["c"]
@@ -453,10 +672,10 @@ example :
 
 /-- what the bookkeeping cannot give: `srcPkg` and `rdir` are keyed by *import path*, so when the same import
     path resolves to two different directories for two importers (each with its own vendor copy), the second
-    importer silently gets the first one's package (class `same-path-two-dirs`); with the Go rule these are two
-    distinct packages. -/
+    importer silently gets the first one's package (class `same-path-two-dirs`, F16-8, open); with the Go rule
+    these are two distinct packages. -/
 def twoCopiesRes : Resolver := fun rp p =>
-  if p == "lib" then some ("gp/src/" ++ rp ++ "/vendor/lib", rp ++ "/vendor") else some ("gp/src/" ++ p, "")
+  if p == "lib" then .ok ("gp/src/" ++ rp ++ "/vendor/lib", rp ++ "/vendor") else .ok ("gp/src/" ++ p, "")
 def twoCopiesImports : String → List String
   | "gp/src/a" => ["lib"]
   | "gp/src/b" => ["lib"]
@@ -469,23 +688,5 @@ theorem same_path_two_dirs_witness :
            [("lib", "gp/src/a/vendor/lib"), ("a", "gp/src/a"), ("b", "gp/src/b")]) := by
   decide
 
-
-/-- and keyed by the import path *string*: the directory `rel1`, imported as `./rel1` by main and as
-    `../rel1` by `./rel2`, is evaluated twice (class `same-dir-two-relative-paths`) -/
-def relTwiceRes : Resolver := fun rp p =>
-  if p == "./rel1" then some ("rel1", ".") else if p == "../rel1" then some ("rel1", rp)
-  else if p == "./rel2" then some ("rel2", ".") else none
-def relTwiceImports : String → List String
-  | "rel2" => ["../rel1"]
-  | _ => []
-
-theorem same_dir_two_relative_paths_witness :
-    importAllWith (fun s i => importSrc fullBook relTwiceRes (fun _ => true) relTwiceImports (fun _ p => p) 5 s "main" i)
-      { srcPkg := [], rdir := [] } ["./rel1", "./rel2"] =
-      .ok ({ srcPkg := ["./rel2", "../rel1", "./rel1"], rdir := ["../rel1", "./rel2", "./rel1"] },
-           [("./rel1", "rel1"), ("../rel1", "rel1"), ("./rel2", "rel2")]) ∧
-    resolveImport Expected.C16.words exFS ["gp"] ["", "w"] ["main.go"] ["main"] [".", "rel1"] = some (["rel1"], ["."]) ∧
-    resolveImport Expected.C16.words exFS ["gp"] ["", "w"] ["main.go"] ["rel2"] ["..", "rel1"] = some (["rel1"], ["rel2"]) := by
-  decide
 
 end YaegiVerif.Props.C16
